@@ -1,61 +1,252 @@
 """Translator for C17: constant tables of partitura/musicanalysis/pitch_spelling.py
 -> lean/PartituraModel/Gen/Ps13Tables.lean.
 
-Module-level tables (STEPS, UND_CHROMA) are read from the live module; the two
-tables that are literals *inside* compute_morph_array (init_morph, morph_int)
-are read from the function's source with `ast` (no execution); the window sizes
-are the defaults of ps13s1's signature.
+Module-level tables (STEPS, UND_CHROMA) are read from the live module.  The two 12-entry tables of
+compute_morph_array are found by the ROLE they play in the function's source (`ast`, nothing is executed):
+
+* `PS13_INIT_MORPH` is the table subscripted in the assignment of `m0` (`m0 = <T>[c0]`, Line 4 of ps13);
+* `PS13_MORPH_INT` is the table subscripted in the assignments of `tonic_morph_for_tonic_chroma` and
+  `morph_for_tonic_chroma` (Lines 6-8 and 13-15; they must be one and the same table, the model has one);
+
+and a table name is resolved through local aliases (`x = y`), local literals (`x = np.array([...], dtype=int)`,
+a list or a tuple) and module-level constants (live value).  Moving a literal to a module constant, renaming it
+or writing it as a tuple therefore changes nothing, while MERGING the two tables (or swapping them) changes the
+generated file and with it every theorem stated over it.  The window sizes are the defaults of ps13s1's signature.
+
+If the source cannot be read by role (a table computed at run time, say) the two tables are read off the BEHAVIOUR of the live
+function instead (`_probe_tables`: 24 calls on one- and two-note inputs, then validated on all 12 x 12 x 12 triples), and when
+both readings exist they must describe the same function - so the generated tables are what the code does, however it is written.
+
+The generator NEVER raises (the shared translator must keep working for every property): a table that cannot be
+extracted is emitted with its LAST KNOWN value (`PINNED` below, the values of the tree the model was written
+against), its name and the reason are listed in `PS13_PINNED`, and `C17.ps13_tables_extracted`
+(Props/C17Tables.lean: `PS13_PINNED = []`) then no longer builds - a named broken obligation - while the
+driver keeps building, so the correspondence and the oracle still run against the pinned model.
 """
 import ast
 import inspect
 import textwrap
 
+# the last known tables (partitura at the commit the model was written against)
+PINNED = {
+    "STEPS": ["A", "B", "C", "D", "E", "F", "G"],
+    "UND_CHROMA": [0, 2, 3, 5, 7, 8, 10],
+    "INIT_MORPH": [0, 1, 1, 2, 2, 3, 4, 4, 5, 5, 6, 6],
+    "MORPH_INT": [0, 1, 1, 2, 2, 3, 3, 4, 5, 5, 6, 6],
+    "K_PRE": 10,
+    "K_POST": 40,
+}
 
-def _local_int_table(fn, name):
-    """the list literal of `name = np.array([...], dtype=int)` inside function `fn`"""
-    tree = ast.parse(textwrap.dedent(inspect.getsource(fn)))
-    found = []
-    for node in ast.walk(tree):
-        if isinstance(node, ast.Assign) and len(node.targets) == 1:
-            t = node.targets[0]
-            if isinstance(t, ast.Name) and t.id == name and isinstance(node.value, ast.Call) and node.value.args:
-                found.append([int(v) for v in ast.literal_eval(node.value.args[0])])
-    if len(found) != 1:
-        raise RuntimeError("translate_ps13: expected exactly one literal table %s in %s, found %d"
-                           % (name, fn.__name__, len(found)))
-    return found[0]
+
+class Unextractable(Exception):
+    pass
+
+
+def _int_table(values, n, what):
+    try:
+        out = [int(v) for v in values]
+    except Exception as e:
+        raise Unextractable("%s is not a table of integers (%s)" % (what, type(e).__name__))
+    if any(float(a) != float(b) for a, b in zip(out, values)):
+        raise Unextractable("%s holds non-integers" % what)
+    if len(out) != n:
+        raise Unextractable("%s has %d entries, the model indexes %d" % (what, len(out), n))
+    return out
+
+
+class _Fn:
+    """single-target assignments of a function's source and the resolution of table names"""
+
+    def __init__(self, module, fn):
+        self.module = module
+        self.tree = ast.parse(textwrap.dedent(inspect.getsource(fn)))
+        self.assign = {}
+        for node in ast.walk(self.tree):
+            if isinstance(node, ast.Assign) and len(node.targets) == 1 and isinstance(node.targets[0], ast.Name):
+                self.assign.setdefault(node.targets[0].id, []).append(node.value)
+
+    def value_nodes(self, name):
+        return self.assign.get(name, [])
+
+    def resolve(self, name, depth=0):
+        """the 12 integers a table name stands for"""
+        if depth > 8:
+            raise Unextractable("alias chain of %s too long" % name)
+        nodes = self.value_nodes(name)
+        if len(nodes) > 1:
+            raise Unextractable("%s is assigned %d times" % (name, len(nodes)))
+        if len(nodes) == 1:
+            node = nodes[0]
+            if isinstance(node, ast.Name):
+                return self.resolve(node.id, depth + 1)
+            if isinstance(node, ast.Call) and node.args and not isinstance(node.args[0], ast.Name):
+                node = node.args[0]          # np.array(<literal>, dtype=int) / np.asarray / tuple(...)
+            elif isinstance(node, ast.Call) and node.args and isinstance(node.args[0], ast.Name):
+                return self.resolve(node.args[0].id, depth + 1)
+            try:
+                lit = ast.literal_eval(node)
+            except Exception:
+                raise Unextractable("%s is not a literal table (%s)" % (name, type(node).__name__))
+            return _int_table(lit, 12, name)
+        if not hasattr(self.module, name):
+            raise Unextractable("%s is neither a local literal nor a module constant" % name)
+        return _int_table(list(getattr(self.module, name)), 12, name)
+
+    def subscripted_in(self, target):
+        """names X occurring as `X[...]` in the value assigned to `target`"""
+        out = []
+        for v in self.value_nodes(target):
+            for node in ast.walk(v):
+                if isinstance(node, ast.Subscript) and isinstance(node.value, ast.Name):
+                    out.append(node.value.id)
+        return out
+
+
+def _morph_tables(PS):
+    """(init_morph, morph_int) by role; raises Unextractable with the reason"""
+    f = _Fn(PS, PS.compute_morph_array)
+    # ---- Line 4: m0 = <T>[c0]
+    names = f.subscripted_in("m0")
+    if len(f.value_nodes("m0")) != 1 or len(names) != 1:
+        # not the shape `m0 = <T>[c0]`: the historical name, if it still exists
+        names = ["init_morph"]
+    init = f.resolve(names[0])
+    # ---- Lines 6-8 / 13-15: the table of morphetic intervals, wherever it is subscripted
+    cands = []
+    for target in ("tonic_morph_for_tonic_chroma", "morph_for_tonic_chroma"):
+        for nm in f.subscripted_in(target):
+            try:
+                cands.append((target, nm, f.resolve(nm)))
+            except Unextractable:
+                continue            # `chroma_array[j]` and the like: not a 12-entry constant table
+    if not cands:
+        cands = [("morph_int", "morph_int", f.resolve("morph_int"))]
+    tables = set(tuple(c[2]) for c in cands)
+    if len(tables) != 1:
+        raise Unextractable("Lines 6-8 and 13-15 use different interval tables (%s): the model has one"
+                            % ", ".join(sorted(set(c[1] for c in cands))))
+    targets = set(c[0] for c in cands)
+    if targets not in ({"morph_int"}, {"tonic_morph_for_tonic_chroma", "morph_for_tonic_chroma"}):
+        raise Unextractable("the interval table is subscripted only in %s" % sorted(targets))
+    return init, list(cands[0][2])
+
+
+def _canon(mi):
+    """the table of morphetic intervals up to what compute_morph_array can observe of it: only differences of its entries
+    modulo 7 enter the result, so the representative with entry 0 equal to 0 and entries in 0..6 is taken"""
+    return [(v - mi[0]) % 7 for v in mi]
+
+
+def _probe_tables(PS):
+    """(init_morph, morph_int) read off the BEHAVIOUR of the live compute_morph_array, and validated on its whole finite
+    domain: with a context vector that counts only the tonic chroma `ct`, the second of two notes (chromas c0, cj) receives
+    morph (morph_int[cj - ct] - morph_int[c0 - ct] + init_morph[c0]) mod 7.  The first note alone gives init_morph; c0 = ct = 0
+    gives morph_int (canonical representative); all 12 x 12 x 12 triples must then agree, else the function is not of the
+    two-table form the model has."""
+    import numpy as np
+
+    def second(c0, cj, ct):
+        cva = np.zeros((2, 12), dtype=int)
+        cva[:, ct] = 1
+        return int(PS.compute_morph_array(np.array([c0, cj]), cva)[1])
+
+    init = [int(PS.compute_morph_array(np.array([c]), np.ones((1, 12), dtype=int))[0]) for c in range(12)]
+    mi = [(second(0, k, 0) - init[0]) % 7 for k in range(12)]
+    for c0 in range(12):
+        for cj in range(12):
+            for ct in range(12):
+                want = (mi[(cj - ct) % 12] - mi[(c0 - ct) % 12] + init[c0]) % 7
+                if second(c0, cj, ct) != want:
+                    raise Unextractable("compute_morph_array(%d, %d; tonic %d) is not of the two-table form" % (c0, cj, ct))
+    return _int_table(init, 12, "probed init_morph"), _int_table(mi, 12, "probed morph_int")
+
+
+def _morph_tables_checked(PS, notes):
+    """the tables by role in the source; if the source cannot be read that way, the tables probed from the behaviour (a table
+    computed at run time, say); if both are available they must describe the same function"""
+    try:
+        by_role = _morph_tables(PS)
+    except Exception as e:
+        by_role, why = None, "%s: %s" % (type(e).__name__, str(e)[:120])
+    try:
+        probed = _probe_tables(PS)
+    except Exception as e:
+        probed, why_p = None, "%s: %s" % (type(e).__name__, str(e)[:120])
+    if by_role is None and probed is None:
+        raise Unextractable("source: %s; behaviour: %s" % (why, why_p))
+    if by_role is None:
+        return probed
+    if probed is not None and ([v % 7 for v in by_role[0]], _canon(by_role[1])) != ([v % 7 for v in probed[0]], _canon(probed[1])):
+        notes.append(("MORPH_TABLES", "the tables read from the source and the behaviour of compute_morph_array disagree"))
+    return by_role
+
+
+def extract():
+    """({name: value}, [(name, reason)]): every table, the pinned value where extraction failed"""
+    vals = dict(PINNED)
+    pinned = []
+
+    def attempt(names, fn):
+        try:
+            got = fn()
+            for nm, v in zip(names, got):
+                vals[nm] = v
+        except Exception as e:      # never let a source change take the shared translator down
+            for nm in names:
+                pinned.append((nm, "%s: %s" % (type(e).__name__, str(e)[:160])))
+
+    try:
+        import partitura.musicanalysis.pitch_spelling as PS
+    except Exception as e:
+        return vals, [(nm, "import failed: %s" % type(e).__name__) for nm in sorted(PINNED)]
+
+    def steps():
+        s = [str(x) for x in PS.STEPS]
+        if len(s) != 7 or any((not x) or any(ord(ch) < 33 or ord(ch) > 126 or ch in '"\\' for ch in x) for x in s):
+            raise Unextractable("STEPS is not seven plain names")
+        return [s]
+
+    attempt(["STEPS"], steps)
+    attempt(["UND_CHROMA"], lambda: [_int_table(list(PS.UND_CHROMA), 7, "UND_CHROMA")])
+    attempt(["INIT_MORPH", "MORPH_INT"], lambda: _morph_tables_checked(PS, pinned))
+
+    def windows():
+        sig = inspect.signature(PS.ps13s1)
+        a, b = sig.parameters["K_pre"].default, sig.parameters["K_post"].default
+        if not (isinstance(a, int) and isinstance(b, int) and a >= 0 and b >= 0):
+            raise Unextractable("K_pre / K_post defaults are not natural numbers")
+        return [int(a), int(b)]
+
+    attempt(["K_PRE", "K_POST"], windows)
+    return vals, pinned
+
+
+def _lstr(s):
+    return '"%s"' % str(s).replace("\\", "\\\\").replace('"', '\\"').replace("\n", " ")
 
 
 def gen_ps13():
-    import partitura.musicanalysis.pitch_spelling as PS
-
+    vals, pinned = extract()
     out = []
     w = out.append
     w("/- GENERATED by harness/translate_ps13.py from /repo (partitura/musicanalysis/pitch_spelling.py).")
     w("   Do not edit. -/")
     w("namespace Gen\n")
-
-    def lstr(s):
-        return '"%s"' % s
-
-    steps = [str(x) for x in PS.STEPS]
-    und = [int(x) for x in PS.UND_CHROMA]
-    init_morph = _local_int_table(PS.compute_morph_array, "init_morph")
-    morph_int = _local_int_table(PS.compute_morph_array, "morph_int")
-    sig = inspect.signature(PS.ps13s1)
-    k_pre = int(sig.parameters["K_pre"].default)
-    k_post = int(sig.parameters["K_post"].default)
     w("/-- `STEPS`: step name of each morph -/")
-    w("def PS13_STEPS : List String := [%s]\n" % ", ".join(lstr(s) for s in steps))
+    w("def PS13_STEPS : List String := [%s]\n" % ", ".join(_lstr(s) for s in vals["STEPS"]))
     w("/-- `UND_CHROMA`: undisplaced chroma of each morph -/")
-    w("def PS13_UND_CHROMA : List Int := [%s]\n" % ", ".join("%d" % v for v in und))
-    w("/-- `init_morph` (literal in compute_morph_array) -/")
-    w("def PS13_INIT_MORPH : List Int := [%s]\n" % ", ".join("%d" % v for v in init_morph))
-    w("/-- `morph_int` (literal in compute_morph_array) -/")
-    w("def PS13_MORPH_INT : List Int := [%s]\n" % ", ".join("%d" % v for v in morph_int))
+    w("def PS13_UND_CHROMA : List Int := [%s]\n" % ", ".join("%d" % v for v in vals["UND_CHROMA"]))
+    w("/-- the table `m0` is read from (`init_morph`, Line 4 of compute_morph_array) -/")
+    w("def PS13_INIT_MORPH : List Int := [%s]\n" % ", ".join("%d" % v for v in vals["INIT_MORPH"]))
+    w("/-- the table of morphetic intervals (`morph_int`, Lines 6-8 and 13-15 of compute_morph_array) -/")
+    w("def PS13_MORPH_INT : List Int := [%s]\n" % ", ".join("%d" % v for v in vals["MORPH_INT"]))
     w("/-- default `K_pre`, `K_post` of ps13s1 -/")
-    w("def PS13_K_PRE : Nat := %d" % k_pre)
-    w("def PS13_K_POST : Nat := %d\n" % k_post)
+    w("def PS13_K_PRE : Nat := %d" % vals["K_PRE"])
+    w("def PS13_K_POST : Nat := %d\n" % vals["K_POST"])
+    w("/-- the tables above that could NOT be read from the source and hold their last known value instead,")
+    w("    with the reason (empty on a tree the translator understands; `C17.ps13_tables_extracted`) -/")
+    w("def PS13_PINNED : List (String × String) := [%s]\n" % ", ".join(
+        "(%s, %s)" % (_lstr(n), _lstr(r)) for n, r in pinned))
     w("end Gen")
     return "\n".join(out) + "\n"
 
